@@ -571,7 +571,7 @@ func runReplay(bin, repo, harness, path string, v *gosym.Violation) (bool, strin
 	s := string(out)
 	switch v.ID {
 	case "no-panic":
-		if strings.Contains(s, "panic:") && code != 0 && code != 90 && code != 91 {
+		if (strings.Contains(s, "panic:") || strings.Contains(s, "fatal error:")) && code != 0 && code != 90 && code != 91 {
 			return true, "native run panicked"
 		}
 	case "no-exit":
@@ -581,6 +581,9 @@ func runReplay(bin, repo, harness, path string, v *gosym.Violation) (bool, strin
 	case "budget":
 		if strings.Contains(s, "test timed out") {
 			return true, "native run timed out"
+		}
+		if strings.Contains(s, "stack overflow") || strings.Contains(s, "goroutine stack exceeds") {
+			return true, "native run overflows the stack (unbounded recursion)"
 		}
 	default:
 		if strings.Contains(s, "VERIF-ASSERT-FAIL "+v.ID) {
